@@ -129,7 +129,7 @@ def run_case(case, acc, order):
                 try:
                     got = getattr(reader, name)
                     if name == 'dtype':
-                        ok = np.dtype(got) == exp
+                        ok = np.dtype(got).newbyteorder('=') == exp.newbyteorder('=')
                     elif name == 'shape':
                         ok = tuple(int(x) for x in got) == tuple(exp)
                     else:
@@ -162,6 +162,9 @@ def run_case(case, acc, order):
                         exp = A[rr]
                         if c is not None:
                             exp = exp[:, c]
+                        # "the single array obtained by concatenating the files" has native byte
+                        # order (np.concatenate), so byte order is not part of the comparison
+                        exp = exp.astype(exp.dtype.newbyteorder('='))
                         try:
                             if c is None:
                                 got = reader[r]
@@ -175,7 +178,10 @@ def run_case(case, acc, order):
                                 got = got[:]
                         except Exception as e:
                             got = e
-                        ok = isinstance(got, np.ndarray) and arr_equal(np.asarray(got), exp)
+                        if isinstance(got, np.ndarray):
+                            got = np.asarray(got)
+                            got = got.astype(got.dtype.newbyteorder('='))
+                        ok = isinstance(got, np.ndarray) and arr_equal(got, exp)
                         acc.step(nt_row or c is not None,
                                  'rows=%s' % rd['k'] + (',cols' if c is not None else ''))
                         if not ok:
@@ -208,7 +214,8 @@ def layout_cases(ctx):
     thorough = ctx.thorough
     N = 8 if thorough else 6
     chans = [1, 2, 3] if thorough else [1, 3]
-    dtypes = ['int16', 'float32', 'float64', 'uint8'] + (['int32', 'uint16'] if thorough else [])
+    # '>i2' / '>f4': a sample type whose byte order is not the native one
+    dtypes = ['int16', 'float32', 'float64', 'uint8', '>i2'] + (['int32', 'uint16', '>f4'] if thorough else [])
     offsets = [0, 1, 5, 16] if thorough else [0, 5]
     rates = [2 / 600.0, 1000.0]
     cases = []
@@ -228,6 +235,7 @@ def layout_cases(ctx):
                                          'fill': ctx.seed + i}})
                 i += 1
     # single-part backends
+    native = [dt for dt in dtypes if not dt.startswith('>')]
     for backend in ('array', 'npy'):
         for n in range(1, N + 1):
             for dt in dtypes:
@@ -239,7 +247,7 @@ def layout_cases(ctx):
     for backend in ('cbin', 'cbin_reader'):
         for n in range(1, N + 1):
             for chunk in sorted(set([1, 2, n])):
-                for dt in dtypes:
+                for dt in native:
                     nc = chans[i % len(chans)]
                     cases.append({'layout': {'backend': backend, 'dtype': dt, 'n_channels': nc,
                                              'parts': [n], 'sample_rate': 1000.0, 'chunk': chunk,
